@@ -26,7 +26,7 @@ META = {
 }
 
 
-def _md(names, dt, temp, seed, stub, steps, velocities=None, coords=None, remove_com=None, sp_over=None, engine="basic", k=4, record=False):
+def _md(names, dt, temp, seed, stub, steps, velocities=None, coords=None, remove_com=None, sp_over=None, engine="basic", k=4, record=False, molid=None):
     """run the REAL integrator in-process; returns per-step phase space (from HDF5) + thermo"""
     import torch
 
@@ -44,7 +44,7 @@ def _md(names, dt, temp, seed, stub, steps, velocities=None, coords=None, remove
             x = np.array(coords, dtype=float)
         sp = dict(method="AM1", scf_eps=1e-10, scf_converger=[1], sp2=[False])
         sp.update(sp_over or {})
-        out = {"molid": list(range(len(names))), "prefix": os.path.join(d, "md"), "print every": 0, "checkpoint every": 0, "xyz": 0,
+        out = {"molid": list(molid) if molid is not None else list(range(len(names))), "prefix": os.path.join(d, "md"), "print every": 0, "checkpoint every": 0, "xyz": 0,
                "h5": {"data": 1, "coordinates": 1, "velocities": 1, "forces": 1}}
         mol = Molecule(Constants(), sp, torch.as_tensor(x), torch.as_tensor(s))
         if velocities is not None:
@@ -66,7 +66,7 @@ def _md(names, dt, temp, seed, stub, steps, velocities=None, coords=None, remove
         with contextlib.redirect_stdout(io.StringIO()):
             md.run(mol, steps, seed=seed, remove_com=remove_com)
         res = {"mass": mol.mass.detach().numpy()[..., 0].copy(), "minv": mol.mass_inverse.detach().numpy()[..., 0].copy(), "species": s, "rec": rec, "mols": {}}
-        for m in range(len(names)):
+        for m in (list(molid) if molid is not None else range(len(names))):
             o = mdh.read_h5(os.path.join(d, f"md.{m}.h5"))
             res["mols"][m] = {g: o[g]["values"] for g in mdh.H5_STREAMS}
         res["final"] = (mol.coordinates.detach().numpy().copy(), mol.velocities.detach().numpy().copy())
@@ -81,11 +81,13 @@ def probe_conservation(inp: Dict[str, Any]) -> Dict[str, Any]:
     """linear/angular momentum to round-off; thermo rows = function of the stored vectors of the same step"""
     import seqm.MolecularDynamics as MD
 
-    r = _md(inp["names"], inp["dt"], inp.get("temp", 300.0), inp.get("seed", 1), inp.get("stub", False), inp["steps"], sp_over={"method": inp.get("method", "AM1")})
+    r = _md(inp["names"], inp["dt"], inp.get("temp", 300.0), inp.get("seed", 1), inp.get("stub", False), inp["steps"], sp_over={"method": inp.get("method", "AM1")}, molid=inp.get("molid"))
     bad = []
     kinds = set()
     C = MD.CONSTANTS
     for m, nm in enumerate(inp["names"]):
+        if inp.get("molid") is not None and m not in inp["molid"]:
+            continue
         nat = len(esh.GEOMS[nm][0])
         mass = r["mass"][m][:nat]
         X, V = r["mols"][m]["coordinates"], r["mols"][m]["velocities"]
@@ -284,6 +286,9 @@ def gen_cases(ctx: Ctx):
     cases = []
     cases.append(("conservation", {"names": ["h2o"], "dt": 0.5, "steps": 8, "stub": False, "seed": int(rng.integers(1, 999))}))
     cases.append(("conservation", {"names": ["h2o", "ch4"], "dt": 0.8, "steps": 25, "stub": True, "seed": int(rng.integers(1, 999))}))
+    # output restricted to a SUBSET of the batch (molid not [0..n-1]): the written thermo rows must still be those of the written molecule (real engine)
+    cases.append(("conservation", {"names": [["ch4", "ch2o"], ["h2o", "h2", "nh3"]][ctx.seed % 2], "molid": [[1], [2, 0]][ctx.seed % 2], "dt": 0.5, "steps": 3, "stub": False, "seed": int(rng.integers(1, 999)),
+                                   "method": str(rng.choice(["AM1", "PM3"]))}))
     cases.append(("reversal", {"names": ["h2o"], "dt": 0.5, "steps": 30, "stub": True, "seed": int(rng.integers(1, 999))}))
     cases.append(("reversal", {"names": ["h2"], "dt": 0.3, "steps": 6, "stub": False, "seed": 3, "tol": 1e-8}))
     # forces that move the atoms = gradient of the energy that is written, with the optional Hamiltonian terms on (pair corrections act between the two methanes)
